@@ -117,7 +117,14 @@ class StmtMixin:
         c = self.to_bool(c) if not isinstance(c, (Vec, MaskedVec)) else None
         if c is None:
             raise Unsupported("vector assert")
-        self.ob(st, f"L{s.lineno}:assert", "assert", c, s.lineno, ast.unparse(s.test))
+        src = ast.unparse(s.test)
+        why = self.contract.assume_asserts.get(src)
+        if why is not None:
+            note = f"real-code `assert {src}` in {self.fn.qualname} is NOT discharged (assumed): {why}"
+            if note not in self.notes:
+                self.notes.append(note)
+        else:
+            self.ob(st, f"L{s.lineno}:assert", "assert", c, s.lineno, src)
         st.assume(c)
         return [(st, self.NORMAL, None)]
 
